@@ -21,6 +21,7 @@ import tempfile
 from concurrent.futures import ThreadPoolExecutor
 
 REPO = "/repo"
+SA_ROOT = os.environ.get("SA_ROOT", "/verif")  # a development copy of the checks can be swept instead
 ALL = [f"C{i:02d}" for i in range(1, 21)]
 CMP = {ast.Eq: ast.NotEq, ast.NotEq: ast.Eq, ast.Lt: ast.LtE, ast.LtE: ast.Lt, ast.Gt: ast.GtE, ast.GtE: ast.Gt,
        ast.In: ast.NotIn, ast.NotIn: ast.In, ast.Is: ast.IsNot, ast.IsNot: ast.Is}
@@ -116,13 +117,14 @@ def run_one(job):
         r = subprocess.run(["/venv/bin/python", "-m", "pytest", "-q", "-p", "no:cacheprovider", "--no-cov", "--continue-on-collection-errors"],
                            cwd=root, capture_output=True, text=True, timeout=600)
         tail = (r.stdout.strip().splitlines() or [""])[-1]
-        if "648 passed" not in tail or "failed" in tail:
+        import re as _re
+        if "648 passed" not in tail or _re.search(r"\b\d+ failed", tail):
             return {"file": rel, "line": line, "op": op, "desc": desc, "killed_by_suite": True}
-        env = dict(os.environ, ODATA_REPO=root, PYTHONPATH="/verif", SA_EVIDENCE_DIR=os.path.join(tmp, "ev"))
+        env = dict(os.environ, ODATA_REPO=root, PYTHONPATH=SA_ROOT, SA_EVIDENCE_DIR=os.path.join(tmp, "ev"))
         res = {"file": rel, "line": line, "op": op, "desc": desc, "killed_by_suite": False, "alarms": {}, "errors": {}, "silent": []}
 
         def chk(p):
-            rr = subprocess.run(["/venv/bin/python", "-m", "sa.check", p], cwd="/verif", env=env, capture_output=True, text=True, timeout=1800)
+            rr = subprocess.run(["/venv/bin/python", "-m", "sa.check", p], cwd=SA_ROOT, env=env, capture_output=True, text=True, timeout=1800)
             lines = [l for l in rr.stdout.splitlines() if not l.startswith("WARNING conda")]
             return p, rr.returncode, lines
 
